@@ -396,6 +396,34 @@ theorem getFork_misroutes_as_found :
     getForkOld names [0x32] = some 2 ∧ names[2]? = some [0x34] ∧
     getForkNew names [0x32] = some 1 := by decide
 
+/-- **The lookup is exact, so near-equal names are routed apart**: two forks of
+one node whose names differ — in the case of one letter, a trailing space, the
+normal form of an accent, the hex case of an escape, a leading zero, anything —
+are each found under their own name, at different positions.  No equivalence
+coarser than byte equality is applied. -/
+theorem getFork_distinguishes_near_equal (names : List Bytes) (i j : Nat) (a b : Bytes)
+    (hnd : names.Nodup) (hi : names[i]? = some a) (hj : names[j]? = some b) (ha : a ≠ []) (hb : b ≠ []) (hab : a ≠ b) :
+    getForkNew names a = some i ∧ getForkNew names b = some j ∧ i ≠ j := by
+  refine ⟨getForkNew_routes names i a hnd hi ha, getForkNew_routes names j b hnd hj hb, ?_⟩
+  intro e
+  subst e
+  rw [hi] at hj
+  exact hab (Option.some.inj hj)
+
+-- the fork table of a map call over the keys S1, plain, s1 (names `_S1`, `_plain`, `_s1`): hypotheses satisfiable, and the
+-- two case-distinct keys are found at their own positions 0 and 2
+example :
+    let names : List Bytes := [[0x5F, 0x53, 0x31], [0x5F, 0x70, 0x6C, 0x61, 0x69, 0x6E], [0x5F, 0x73, 0x31]]
+    names.Nodup ∧ getForkNew names [0x5F, 0x53, 0x31] = some 0 ∧ getForkNew names [0x5F, 0x73, 0x31] = some 2 := by decide
+
+/-- Negative witness (a lookup that compares the fork name up to letter case,
+`getForkFold`; a model of a class of defects, untied by design): with that fork
+table the notification of fork `s1` (position 2) is given to fork `S1`
+(position 0), which sorts first. -/
+theorem getFork_case_folding_misroutes :
+    let names : List Bytes := [[0x5F, 0x53, 0x31], [0x5F, 0x70, 0x6C, 0x61, 0x69, 0x6E], [0x5F, 0x73, 0x31]]
+    getForkFold names [0x5F, 0x73, 0x31] = some 0 ∧ getForkNew names [0x5F, 0x73, 0x31] = some 2 := by decide
+
 /-- End to end on the model: forks of one node with pairwise distinct ids
 `fork ++ tᵢ`; a notification rendered for fork `i` (any chunk, any attempt, any
 metadata file) is parsed back to exactly that record and routed to position `i`. -/
